@@ -105,9 +105,13 @@ where
 
     if sbbox.min.x > cbbox.max.x || cbbox.min.x > sbbox.max.x || sbbox.min.y > cbbox.max.y || cbbox.min.y > sbbox.max.y
     {
+        #[cfg(feature = "verif-hooks")]
+        crate::verif::hit(crate::verif::Site::TrivialResult);
         return trivial_result(subject, clipping, operation);
     }
 
+    #[cfg(feature = "verif-hooks")]
+    crate::verif::hit(crate::verif::Site::FullSweep);
     let sorted_events = subdivide(&mut event_queue, &sbbox, &cbbox, operation);
 
     let contours = connect_edges(&sorted_events);
